@@ -85,7 +85,7 @@ func renameDoc(v any, names map[string]bool, suffix string) any {
 
 func genC13(t *rapid.T) any {
 	b := C13Batch{}
-	b.Scenario = rapid.SampledFrom([]string{"fresh-selectors-separate-documents", "fresh-selectors-separate-documents", "warm-selectors-separate-documents", "shared-document", "shared-document", "internal-parallelism", "path-selectors", "same-query-text", "same-query-text", "function-side-effects", "own-constants"}).Draw(t, "scenario")
+	b.Scenario = rapid.SampledFrom([]string{"fresh-selectors-separate-documents", "fresh-selectors-separate-documents", "warm-selectors-separate-documents", "shared-document", "shared-document", "internal-parallelism", "path-selectors", "same-query-text", "same-query-text", "function-side-effects", "own-constants", "built-in-functions"}).Draw(t, "scenario")
 	b.Procs = rapid.SampledFrom([]int{1, 2, 4, 16}).Draw(t, "procs")
 	b.Repeat = rapid.IntRange(1, 3).Draw(t, "repeat")
 	ng := rapid.IntRange(2, 8).Draw(t, "goroutines")
@@ -126,6 +126,10 @@ func genC13(t *rapid.T) any {
 			}
 			b.G = append(b.G, list)
 		}
+		return &C13Case{Batch: b}
+	}
+	if b.Scenario == "built-in-functions" {
+		genC13Builtins(t, &b, ng)
 		return &C13Case{Batch: b}
 	}
 	if b.Scenario == "function-side-effects" {
@@ -333,6 +337,109 @@ func genC13(t *rapid.T) any {
 		b.Docs = []map[string]any{d}
 	}
 	return &C13Case{Batch: b}
+}
+
+// genC13Builtins fills the batch of scenario built-in-functions: every query calls the library's own functions
+// (HASH with each digest, ENCODE / DECODE with each base, CONCAT, CHANGETYPE, ARRAY / UNWIND / FIRST / LAST /
+// ELEMENTAT, IF, TO_UPPER / TO_LOWER, also nested in one another) as select items, plain or ASYNC-qualified, at
+// the top level or inside a derived table / CTE / WHERE clause, over tables of 1-12 rows whose string column has
+// a per-table length class (a few bytes to a few kilobytes). The goroutines read tables of their own or all the
+// same one. What a call returns for a row is the business of that call alone; the solo run says what that is.
+func genC13Builtins(t *rapid.T, b *C13Batch, ng int) {
+	mkdoc := func(l string) map[string]any {
+		nr := rapid.IntRange(1, 12).Draw(t, l+".rows")
+		reps := rapid.SampledFrom([]int{1, 1, 3, 40, 400}).Draw(t, l+".len")
+		rows := []any{}
+		for r := 0; r < nr; r++ {
+			w := rapid.SampledFrom([]string{"a", "Bc", "xyz ", "q-7", "Zz"}).Draw(t, fmt.Sprintf("%s.r%d.w", l, r))
+			nt := rapid.IntRange(0, 3).Draw(t, fmt.Sprintf("%s.r%d.tags", l, r))
+			tags := []any{}
+			for i := 0; i < nt; i++ {
+				if rapid.IntRange(0, 2).Draw(t, fmt.Sprintf("%s.r%d.t%d", l, r, i)) == 0 {
+					tags = append(tags, []any{fmt.Sprintf("n%d", i), float64(r)})
+				} else {
+					tags = append(tags, fmt.Sprintf("%s%d", w, i))
+				}
+			}
+			rows = append(rows, map[string]any{"k": float64(r), "s": strings.Repeat(w, reps) + fmt.Sprint(r), "n": float64(r%4) + 0.5, "ns": fmt.Sprint(r * 7), "tags": tags})
+		}
+		return map[string]any{"t": rows}
+	}
+	b.Shared = rapid.IntRange(0, 2).Draw(t, "fn.shared") == 0
+	if b.Shared {
+		b.Docs = []map[string]any{mkdoc("shared")}
+	}
+	for g := 0; g < ng; g++ {
+		nq := rapid.IntRange(1, 3).Draw(t, fmt.Sprintf("g%d.n", g))
+		var list []C13Q
+		for qi := 0; qi < nq; qi++ {
+			l := fmt.Sprintf("g%d.q%d", g, qi)
+			scalar := func(l string) string {
+				return rapid.SampledFrom([]string{"s", "s", "n", "k", "ns", "CONCAT(s, k)", "TO_UPPER(s)", "CONCAT(ns, '-', n)"}).Draw(t, l+".arg")
+			}
+			call := func(l string) (string, bool) {
+				// the call and whether it may carry the ASYNC qualifier (immediate functions may not)
+				switch rapid.SampledFrom([]string{"hash", "hash", "hash", "encode", "decode", "concat", "changetype", "array", "unwind", "pick", "if", "case", "hash-of-encode"}).Draw(t, l+".fn") {
+				case "hash":
+					return "HASH(" + scalar(l) + ", '" + rapid.SampledFrom([]string{"sha1", "sha256", "sha512", "md5", "MD5", "Sha256"}).Draw(t, l+".alg") + "')", true
+				case "encode":
+					return "ENCODE(" + scalar(l) + ", '" + rapid.SampledFrom([]string{"base64", "base32", "hex"}).Draw(t, l+".base") + "')", true
+				case "decode":
+					base := rapid.SampledFrom([]string{"base64", "base32", "hex"}).Draw(t, l+".base")
+					return "DECODE(ENCODE(" + scalar(l) + ", '" + base + "'), '" + base + "')", true
+				case "concat":
+					return "CONCAT(" + scalar(l+".0") + ", '-', " + scalar(l+".1") + ")", true
+				case "changetype":
+					return rapid.SampledFrom([]string{"CHANGETYPE(n, 'string')", "CHANGETYPE(k, 'integer')", "CHANGETYPE(ns, 'double')", "CHANGETYPE(s, 'array')", "CHANGETYPE(ns, 'integer')"}).Draw(t, l+".ct"), true
+				case "array":
+					return "ARRAY(" + scalar(l+".0") + ", " + scalar(l+".1") + ", k)", true
+				case "unwind":
+					return rapid.SampledFrom([]string{"UNWIND(tags)", "UNWIND(ARRAY(tags, tags))", "FIRST(UNWIND(tags))", "UNWIND(ARRAY(k, ARRAY(s, n)))"}).Draw(t, l+".uw"), true
+				case "pick":
+					return rapid.SampledFrom([]string{"FIRST(tags)", "LAST(tags)", "ELEMENTAT(ARRAY(k, s, n), 1)", "LAST(ARRAY(k, s))", "FIRST(ARRAY(HASH(s, 'sha1'), k))"}).Draw(t, l+".pick"), true
+				case "if":
+					return "IF(k > 1, " + scalar(l+".0") + ", " + scalar(l+".1") + ")", true
+				case "case":
+					return rapid.SampledFrom([]string{"TO_UPPER(s)", "TO_LOWER(s)", "TO_LOWER(CONCAT(s, 'X'))", "TO_UPPER(HASH(s, 'md5'))"}).Draw(t, l+".case"), false
+				}
+				return "HASH(ENCODE(" + scalar(l) + ", 'hex'), '" + rapid.SampledFrom([]string{"sha1", "sha256", "sha512", "md5"}).Draw(t, l+".alg") + "')", true
+			}
+			ni := rapid.IntRange(1, 4).Draw(t, l+".items")
+			items := []string{"k"}
+			for i := 0; i < ni; i++ {
+				il := fmt.Sprintf("%s.i%d", l, i)
+				c, asyncable := call(il)
+				if asyncable && rapid.IntRange(0, 2).Draw(t, il+".async") == 0 {
+					c = "ASYNC." + c
+				}
+				items = append(items, fmt.Sprintf("%s AS c%d", c, i))
+			}
+			sel := "SELECT " + strings.Join(items, ", ") + " FROM t"
+			q := C13Q{}
+			switch rapid.SampledFrom([]string{"top", "top", "top", "derived", "cte", "where", "scalar-subquery"}).Draw(t, l+".form") {
+			case "top":
+				q.SQL = sel
+			case "derived":
+				q.SQL = "SELECT * FROM (" + sel + ") x"
+			case "cte":
+				q.SQL = "WITH c AS (" + sel + ") SELECT * FROM c"
+			case "where":
+				c, _ := call(l + ".w")
+				q.SQL = sel + " WHERE " + c + " IS NOT NULL AND k >= " + fmt.Sprint(rapid.IntRange(0, 2).Draw(t, l+".lo"))
+			case "scalar-subquery":
+				c, _ := call(l + ".sq")
+				q.SQL = "SELECT k, (SELECT " + c + " AS c FROM `<-t` LIMIT 1) AS sb FROM t"
+			}
+			if b.Shared {
+				q.Doc = 0
+			} else {
+				b.Docs = append(b.Docs, mkdoc(l))
+				q.Doc = len(b.Docs) - 1
+			}
+			list = append(list, q)
+		}
+		b.G = append(b.G, list)
+	}
 }
 
 type c13Outcome struct {
@@ -560,7 +667,7 @@ func init() {
 			"constructs (or path selectors; a third of the queries built with PostgresEscapingDialect / IdiomaticArrays, and now and then a text the rewriters reject next to them), released together by a barrier, each list repeated 1-3 times, GOMAXPROCS in {1,2,4,16}; scenarios: separate " +
 			"documents with selector texts never seen before in the process (column names carry a per-batch nonce), separate documents with warm " +
 			"selectors, one shared document read by all goroutines (fresh or warm names), internal parallelism (PARALLEL / HASH joins, ASYNC and " +
-			"SPINASYNC calls) inside concurrent queries, concurrent ExecReader calls, all goroutines building and running the same query texts (WITH + UNION, CTEs, joins, subqueries) at once, and function-side-effects: ASYNC / SPINASYNC calls in top-level, derived-table, CTE, scalar-subquery, inner-array and join-operand positions that write one unsynchronised cell per invocation, read by the caller right after Exec (an unset cell is a mismatch with the solo run, and a data race in this build). Oracle: no race report, no fatal error, no confirmed hang; every " +
+			"SPINASYNC calls) inside concurrent queries, concurrent ExecReader calls, all goroutines building and running the same query texts (WITH + UNION, CTEs, joins, subqueries) at once, and function-side-effects: ASYNC / SPINASYNC calls in top-level, derived-table, CTE, scalar-subquery, inner-array and join-operand positions that write one unsynchronised cell per invocation, read by the caller right after Exec (an unset cell is a mismatch with the solo run, and a data race in this build), and built-in-functions: the library's own functions (HASH with each digest, ENCODE / DECODE with each base, CONCAT, CHANGETYPE, ARRAY / UNWIND / FIRST / LAST / ELEMENTAT, IF, TO_UPPER / TO_LOWER, nested in one another) as select items, a third of them under ASYNC, at the top level or in a derived table / CTE / WHERE clause / scalar sub query, over tables of 1-12 rows with strings of a few bytes to a few kilobytes, on separate documents or one shared document. Oracle: no race report, no fatal error, no confirmed hang; every " +
 			"result equals the result of the same query run alone afterwards on a private copy (multiset where order is open); a shared document is " +
 			"unchanged. Non-trivial: every batch (>=2 goroutines overlap by construction of the barrier).",
 		Assumptions: []string{
